@@ -12,8 +12,11 @@
 
    Reading a Go answer as the model's input: [abstracts x results chain] says that
    x_results x is the slice entry by entry (nil -> None, Result 1/2/0/3/other ->
-   ROK/RNonRevokable/RUnknown/RRevoked/ROther, methods and server results as annotations)
-   and x_chain x the subjects of the chain. None as a result = the Go code panics. *)
+   ROK/RNonRevokable/RUnknown/RRevoked/ROther, methods and server results as annotations,
+   a nil *ServerResult -> None) and x_chain x the subjects of the chain.
+   None as a result = the Go code panics.
+   /repo fix a146158 (finding F3 of docs/audit/C05.md, found by the first version of this file):
+   the aggregate is now total and equals the model on EVERY answer. *)
 From Coq Require Import List Bool String Ascii NArith ZArith.
 From NV Require Import Base GoLib C05_Model C05_Gen C05_GenProofs.
 Import ListNotations.
@@ -48,8 +51,8 @@ Theorem C05_gen_revocationFinalResult_spec :
 Proof. exact gen_final_spec. Qed.
 Print Assumptions C05_gen_revocationFinalResult_spec.
 
-(* within the validator contract (one non-nil result per certificate, non-nil server results):
-   exactly the model's final_result *)
+(* within the validator contract (one non-nil result per certificate - what checkRevocationResults
+   lets through): exactly the model's final_result *)
 Theorem C05_gen_revocationFinalResult_equiv :
   forall (C : Type) (subj : C -> string) results chain, in_contract C results chain ->
     exists z s, gen_verifier_revocationFinalResult C subj results chain = Some (z, s)
@@ -57,10 +60,10 @@ Theorem C05_gen_revocationFinalResult_equiv :
 Proof. exact gen_final_equiv. Qed.
 Print Assumptions C05_gen_revocationFinalResult_equiv.
 
-(* whenever the lengths agree (what checkRevocationResults establishes first): it panics exactly
-   when an entry is nil or has a nil server result, and otherwise returns the model's verdict *)
+(* not more results than certificates: it panics exactly when an entry is nil, and otherwise
+   returns the model's verdict (server results, nil or not, play no role) *)
 Theorem C05_gen_revocationFinalResult_total :
-  forall (C : Type) (subj : C -> string) results chain, List.length results = List.length chain ->
+  forall (C : Type) (subj : C -> string) results chain, List.length results <= List.length chain ->
     match gen_verifier_revocationFinalResult C subj results chain with
     | Some (z, s) => forallb entry_good results = true
                      /\ (rres_of z, s) = final_result (model_results results) (map subj chain)
@@ -69,23 +72,28 @@ Theorem C05_gen_revocationFinalResult_total :
 Proof. exact gen_final_total. Qed.
 Print Assumptions C05_gen_revocationFinalResult_total.
 
+(* everything that is partial in the function, on ALL inputs: more results than certificates
+   (certChain[i] out of range) or a nil entry (certResult.RevocationMethod) - nothing else *)
+Theorem C05_gen_revocationFinalResult_panic_iff :
+  forall (C : Type) (subj : C -> string) results chain,
+    gen_verifier_revocationFinalResult C subj results chain = None <->
+    List.length chain < List.length results \/ exists p, In p results /\ ptr_val p = None.
+Proof. exact gen_final_panic_iff. Qed.
+Print Assumptions C05_gen_revocationFinalResult_panic_iff.
+
 (* ---------- the two together = the model's aggregation, on EVERY validator answer ---------- *)
 
-(* no contract hypothesis. The one difference is a finding about /repo: an answer that passes
-   checkRevocationResults but carries a nil *ServerResult makes revocationFinalResult (and so
-   Verify) panic (verifier.go:888); the model's input has no nil server results *)
+(* no contract hypothesis, no exception: both partial cases above are what the check excludes *)
 Theorem C05_gen_aggregate_total :
   forall (C : Type) (subj : C -> string) x results chain, abstracts C subj x results chain ->
-    gen_aggregate C subj results chain
-    = if complete x && negb (servers_present results) then None else Some (model_aggregate x).
+    gen_aggregate C subj results chain = Some (model_aggregate x).
 Proof. exact gen_aggregate_total. Qed.
 Print Assumptions C05_gen_aggregate_total.
 
-(* on the model's input space (server results non-nil): the revocation entry xmodel computes is
-   what the code's two functions compute, whatever the answer (short, long, nil entries, any values) *)
+(* the revocation entry xmodel computes is what the code's two functions compute, whatever the
+   answer (short, long, nil entries, nil server results, any values), action, validator, time *)
 Theorem C05_gen_aggregate_equiv :
   forall (C : Type) (subj : C -> string) x results chain, abstracts C subj x results chain ->
-    servers_present results = true ->
     x_action x <> Skip -> x_val x <> 4%N -> x_err x = false ->
     xo_result (xmodel x) = gen_aggregate C subj results chain.
 Proof. exact gen_aggregate_xmodel. Qed.
@@ -99,12 +107,18 @@ Print Assumptions C05_gen_model_aggregate_place.
 
 (* ---------- the property's clauses transported onto the code's values ---------- *)
 
+(* C05_never_panics *)
+Theorem C05_gen_never_panics :
+  forall (C : Type) (subj : C -> string) results chain, gen_aggregate C subj results chain <> None.
+Proof. exact gen_never_panics. Qed.
+Print Assumptions C05_gen_never_panics.
+
 (* C05_full_pass_iff: passes iff exactly one result per certificate, each non-nil, OK or non-revokable *)
 Theorem C05_gen_pass_iff :
   forall (C : Type) (subj : C -> string) results chain,
     gen_aggregate C subj results chain = Some Pass <->
     List.length results = List.length chain /\
-    Forall (fun p => exists r, ptr_val p = Some r /\ nonnil_servers r = true /\
+    Forall (fun p => exists r, ptr_val p = Some r /\
                                (CertRevocationResult_Result r = 1%Z \/ CertRevocationResult_Result r = 2%Z)) results.
 Proof. exact gen_pass_iff. Qed.
 Print Assumptions C05_gen_pass_iff.
@@ -154,21 +168,23 @@ Theorem C05_gen_unknown :
 Proof. exact gen_unknown. Qed.
 Print Assumptions C05_gen_unknown.
 
-(* where C05_never_panics stops being about the code: the only panic left after fix d78db00 *)
-Theorem C05_gen_panic_iff :
-  forall (C : Type) (subj : C -> string) results chain,
-    gen_aggregate C subj results chain = None <->
-    List.length results = List.length chain /\ (forall p, In p results -> ptr_val p <> None) /\
-    exists p r q, In p results /\ ptr_val p = Some r /\
-                  In q (CertRevocationResult_ServerResults r) /\ ptr_val q = None.
-Proof. exact gen_panic_iff. Qed.
-Print Assumptions C05_gen_panic_iff.
+(* ---------- the body before fix a146158 (finding F3) ---------- *)
+(* [loop2_v0] is the inner loop as translated at ccdc027 (a copy in C05_GenProofs.v, not regenerated):
+   a nil *ServerResult made it - hence Verify - panic; today's generated loop has no effect at all *)
+Theorem C05_gen_v0_nil_server_panicked :
+  forall (k : unit -> option (Z * string)) r l,
+    gen_verifier_revocationFinalResult_loop2 k r l = k tt /\
+    loop2_v0 _ k r l = (if forallb (fun p => is_some (ptr_val p)) l then k tt else None) /\
+    (In PNil l -> loop2_v0 _ k r l = None).
+Proof. exact fix_a146158. Qed.
+Print Assumptions C05_gen_v0_nil_server_panicked.
 
-(* non-vacuity: the panicking answer exists (one certificate, result OK, one nil server result) *)
+(* non-vacuity: the answer that panicked before a146158 (one certificate, result OK, one nil server
+   result) passes; and one input per verdict class *)
 Example C05_gen_example_nil_server : forall (C : Type) (subj : C -> string) (c : C),
-  gen_aggregate C subj [PNew (mk_CertRevocationResult 1 [PNil] 0)] [c] = None
+  gen_aggregate C subj [PNew (mk_CertRevocationResult 1 [PNil] 0)] [c] = Some Pass
   /\ gen_aggregate C subj [PNew (mk_CertRevocationResult 1 [] 0)] [c] = Some Pass
-  /\ gen_aggregate C subj [PNew (mk_CertRevocationResult 0 [] 0); PNew (mk_CertRevocationResult 3 [] 0)] [c; c]
+  /\ gen_aggregate C subj [PNew (mk_CertRevocationResult 0 [PNil] 0); PNew (mk_CertRevocationResult 3 [] 0)] [c; c]
      = Some (Revoked (subj c))
   /\ gen_aggregate C subj [PNew (mk_CertRevocationResult 1 [] 0); PNil] [c; c] = Some Inconclusive
   /\ gen_aggregate C subj [] [c] = Some Inconclusive.
